@@ -436,7 +436,8 @@ def _evaluate(spec, note, freq=None):
                     return [("pmf-prob-missing", f"{where} row {i}: drew {a!r} (index {j}) from {pmf!r} but no probability was reported")]
                 if not (isinstance(p, (int, float)) and p == pmf[j]):
                     return [("pmf-draw-inconsistent", f"{where} row {i}: drew {a!r} (index {j}) from {pmf!r} but probability {p!r} was reported")]
-                if freq is not None and len(pmf) > 1:
+                # (cases that share one of the few fixed small seeds draw the same uniforms: they are not independent samples)
+                if freq is not None and len(pmf) > 1 and spec["seed"] > 1:
                     freq[0] += 1 if j == 0 else 0; freq[1] += pmf[0]; freq[2] += pmf[0] * (1 - pmf[0]); freq[3] += 1
             else:
                 note("oracle.action")
